@@ -25,11 +25,11 @@ OUTS = [None, dict(dtype='uint16', nodata=65535), None, dict(dtype='int16', noda
 def encodings(dtype):
     if dtype == 'float32':
         return [('nan', None), (-9999.0, None), ('mask', 0.0), ('mask', 3.4e38), ('mask', -1e30), ('mask', float('nan')),
-                ('mask', 'random'), (3.0e38, None), ('masktag', 'random'), ('masktag', -9999.0), ('sidecar', 'random'), ('sidecar', 3.4e38),
+                ('mask', 'random'), (3.0e38, None), ('masktag', 'random'), ('masktag', -9999.0), ('sidecar', 'random'), ('sidecar', 3.4e38), ('ndvalues', None),
                 # float64 files whose nodata value is no float32 number (incl. the float64 minimum, a common default)
                 ('f64:0.1', None), ('f64:-1e30', None), ('f64:-1.7976931348623157e308', None)]
     return [(0, None), ('mask', 0), ('mask', 255), ('mask', 'random'), ('alpha', 0), ('alpha', 255), ('alpha', 'random'),
-            ('masktag', 255), ('masktag', 'random'), ('alphapart', 0), ('alphapart', 'random'), ('sidecar', 255), ('sidecar', 'random')]
+            ('masktag', 255), ('masktag', 'random'), ('alphapart', 0), ('alphapart', 'random'), ('sidecar', 255), ('sidecar', 'random'), ('ndvalues', None)]
 
 
 def write_encoded(path, grid, arr, valid, dtype, enc, hidden, rng, south_up=False):
@@ -57,6 +57,10 @@ def write_encoded(path, grid, arr, valid, dtype, enc, hidden, rng, south_up=Fals
         for b in range(nb):
             a[b][~valid] = hv[~valid]
         rasters.write_tif(path, grid, a, dtype=dtype, nodata=-9999.0 if dtype == 'float32' else 255, mask=valid, south_up=south_up)
+    elif enc == 'ndvalues':
+        # the dataset metadata item NODATA_VALUES: a pixel is invalid where every band holds its value
+        a[:, ~valid] = 0.0
+        rasters.write_tif(path, grid, a, dtype=dtype, nodata=None, tags=dict(NODATA_VALUES=' '.join(['0'] * nb)), south_up=south_up)
     elif enc == 'sidecar':
         # the mask as a side-car file <name>.tif.msk
         for b in range(nb):
@@ -359,7 +363,7 @@ def read_logic(run, tmp):
                     raw = ds.read(1).astype('float64')
                     maskbits = ds.dataset_mask().astype(bool)
                     ra = RasterArray.from_rio_dataset(ds, indexes=1)
-                    is_masked = enc in ('mask', 'alpha', 'masktag', 'alphapart', 'sidecar')
+                    is_masked = enc in ('mask', 'alpha', 'masktag', 'alphapart', 'sidecar', 'ndvalues')
                     nd = ds.nodata
             for r in range(3):
                 for c in range(4):
